@@ -10,7 +10,10 @@
    builtin type id / nil, empty and n-element arrays / multi-dimensional arrays, ExtensionObject nil / mask 0 / nil body
    / XML body / registered struct body) and ANY well-formed value: Encode succeeds, the encoding has at least the
    static minimal size, and Decode of the encoding followed by ANY rest returns the normal form of the value and leaves
-   exactly that rest, for every nesting budget above the length of the encoding (in particular fuel_for).
+   exactly that rest, whenever the nesting depth of the value (vdepth: Variants / DataValues / DiagnosticInfos /
+   ExtensionObjects inside each other) is within the nesting levels the decoder is given; C01_roundtrip_limit: in
+   particular for every value of depth <= ua.MaxNestingLevel = 100 under the decoder as the code runs it.  Deeper values
+   are encodable but rejected by Decode (StatusBadEncodingLimitsExceeded): C01_too_deep_rejected.
    Instances: C01_generated (all 309 generated struct descriptors, the pointer types handed to ua.Decode, the Variant
    element types), C01_service (type id + body as DecodeService reads them; decode_service is a transcription of
    service.go:35-54; the check runs ua.DecodeService on every generated service message and compares it with that
@@ -34,7 +37,7 @@ Definition all_tys : list ty :=
    encoding followed by ANY rest gives the normalised value and leaves exactly that rest *)
 Definition roundtrips (reg : list (Z * Z * ty)) (t : ty) (v : val) : Prop :=
   exists bs, encode reg t v = EOk bs /\ (minsize t <= length bs)%nat /\
-    forall fuel rest, (length bs < fuel)%nat -> exists al, decode reg fuel t (bs ++ rest) = Ok (rnorm reg t v) rest al.
+    forall fuel rest, (vdepth v <= fuel)%nat -> exists al, decode reg fuel t (bs ++ rest) = Ok (rnorm reg t v) rest al.
 
 (* generated tables agree with the constants and the Variant type table transcribed in the model *)
 Theorem C01_registry :
@@ -42,26 +45,40 @@ Theorem C01_registry :
   map fst variant_types = [1;2;3;4;5;6;7;8;9;10;11;12;13;14;15;16;17;18;19;20;21;22;23;24;25] /\
   xml_body_ty = Codec.xml_body_ty /\
   (go_null, go_f32qnan, go_f64qnan, go_MaxVariantArrayLength) = (null32, f32qnan, f64qnan, max_variant_array_length) /\
+  (go_MaxVariantArrayDimensions, go_MaxNestingLevel) = (max_variant_array_dimensions, max_nesting_level) /\
   (go_variant_masks, go_datavalue_masks, go_loctext_masks) = ([64; 128], [1; 2; 4; 8; 16; 32], [1; 2]) /\
   (go_diag_masks, go_extobj_masks, go_nodeid_types) = ([1; 2; 4; 8; 16; 32; 64], [0; 1; 2], [0; 1; 2; 3; 4; 5]).
 Proof. vm_compute. repeat split; reflexivity. Qed.
 
-(* FULL: any registry, any descriptor, any well-formed value *)
+(* FULL: any registry, any descriptor, any well-formed value, any number of nesting levels that covers the value *)
 Theorem C01_roundtrip : forall reg t v, rwf reg t v = true -> roundtrips reg t v.
 Proof.
-  intros reg t v Hw. destruct (roundtrip_all reg t v Hw 0%nat) as [bs [E [L _]]].
+  intros reg t v Hw. destruct (roundtrip_all reg t v (vdepth v) Hw (le_n _) 0%nat) as [bs [E [L _]]].
   exists bs. split; [exact E|]. split; [exact L|]. intros fuel rest Hf.
-  destruct (roundtrip_all reg t v Hw fuel) as [bs' [E' [_ D]]]. rewrite E in E'. inversion E'; subst bs'. exact (D Hf rest).
+  destruct (roundtrip_all reg t v fuel Hw Hf (S (length bs))) as [bs' [E' [_ D]]]. rewrite E in E'. inversion E'; subst bs'.
+  exact (D (Nat.lt_succ_diag_r _) rest).
 Qed.
 
-(* in the shape of the design: with the nesting budget fuel_for of the encoding *)
-Theorem C01_roundtrip_fuel_for : forall reg t v, rwf reg t v = true ->
+(* as the code runs the decoder: with ua.MaxNestingLevel levels *)
+Theorem C01_roundtrip_limit : forall reg t v, rwf reg t v = true -> (vdepth v <= max_nesting_level)%nat ->
   exists bs, encode reg t v = EOk bs /\
-    forall rest, exists al, decode reg (fuel_for bs) t (bs ++ rest) = Ok (rnorm reg t v) rest al.
+    forall rest, exists al, decode reg max_nesting_level t (bs ++ rest) = Ok (rnorm reg t v) rest al.
 Proof.
-  intros reg t v Hw. destruct (C01_roundtrip reg t v Hw) as [bs [E [_ D]]]. exists bs. split; [exact E|].
-  intros rest. apply D. unfold fuel_for. lia.
+  intros reg t v Hw Hd. destruct (C01_roundtrip reg t v Hw) as [bs [E [_ D]]]. exists bs. split; [exact E|].
+  intros rest. apply D. exact Hd.
 Qed.
+
+(* a value nested deeper than the limit is encodable but Decode rejects it: 101 Variants inside each other *)
+Fixpoint variant_chain (k : nat) : val :=
+  match k with O => VVariant 1 0 0 [] (Some (VBool true)) | S k' => VVariant 24 0 0 [] (Some (variant_chain k')) end.
+Theorem C01_too_deep_rejected :
+  rwf [] (TCustom CVariant) (variant_chain 100) = true /\ vdepth (variant_chain 100) = 101%nat /\
+  rwf [] (TCustom CVariant) (variant_chain 99) = true /\ vdepth (variant_chain 99) = 100%nat /\
+  match encode [] (TCustom CVariant) (variant_chain 100) with
+  | EOk bs => res_class (decode [] max_nesting_level (TCustom CVariant) bs) =? 2
+  | _ => false
+  end = true.
+Proof. vm_compute. repeat split; reflexivity. Qed.
 
 (* instantiated at what the code registers today *)
 Theorem C01_generated : forall t v, In t all_tys -> rwf gen_reg t v = true -> roundtrips gen_reg t v.
@@ -78,19 +95,19 @@ Definition decode_service (fuel : nat) : dec (val * val) :=
 Theorem C01_service : forall tid t v,
   expnodeid_ok tid = true -> lookup_expnodeid svc_reg tid = Some t -> rwf gen_reg (TPtr t) v = true ->
   exists bs, encode_service tid t v = EOk bs /\
-    forall fuel rest, (length bs < fuel)%nat ->
+    forall fuel rest, (vdepth v <= fuel)%nat ->
       exists al, decode_service fuel (bs ++ rest) = Ok (norm_expnodeid tid, rnorm gen_reg (TPtr t) v) rest al.
 Proof.
   intros tid t v Htid Hl Hw.
   destruct (RTb_expnodeid 0 tid Htid) as [b1 [E1 _]]. destruct (C01_roundtrip gen_reg (TPtr t) v Hw) as [b2 [E2 [_ D2]]].
   exists (b1 ++ b2). unfold encode_service. rewrite E1, E2. split; [reflexivity|]. intros fuel rest Hf.
-  rewrite app_length in Hf. rewrite <- app_assoc. unfold decode_service.
-  destruct (RTb_expnodeid fuel tid Htid) as [b1' [E1' [_ D1]]]. rewrite E1 in E1'. inversion E1'; subst b1'.
+  rewrite <- app_assoc. unfold decode_service.
+  destruct (RTb_expnodeid (S (length b1)) tid Htid) as [b1' [E1' [_ D1]]]. rewrite E1 in E1'. inversion E1'; subst b1'.
   eapply decodes_bind; [apply D1; lia|].
   assert (Hl' : lookup_expnodeid svc_reg (norm_expnodeid tid) = Some t).
   { destruct tid; try discriminate. destruct nid as [n|]; [|discriminate].
     cbn [norm_expnodeid lookup_expnodeid] in *. destruct n; try discriminate. exact Hl. }
-  rewrite Hl'. eapply decodes_bind; [apply D2; lia|apply decodes_ret].
+  rewrite Hl'. eapply decodes_bind; [apply D2; exact Hf|apply decodes_ret].
 Qed.
 
 (* every generated descriptor has well-formed values (the zero value with non-nil pointers), and every service is found *)
@@ -191,7 +208,8 @@ Proof. vm_compute. repeat split; reflexivity. Qed.
 
 Print Assumptions C01_registry.
 Print Assumptions C01_roundtrip.
-Print Assumptions C01_roundtrip_fuel_for.
+Print Assumptions C01_roundtrip_limit.
+Print Assumptions C01_too_deep_rejected.
 Print Assumptions C01_generated.
 Print Assumptions C01_service.
 Print Assumptions C01_descriptors_inhabited.
